@@ -277,6 +277,14 @@ class Repo:
             h.update(self.by_relpath[rel].source.encode())
         return h.hexdigest()[:16]
 
+    def public_function(self, dotted: str):
+        """(Module, FunctionDef) of a function known by its public dotted name, wherever the package now defines it (a function
+        moved to another module and re-exported from the old place is still that function); an absent one is a vanished anchor."""
+        r = self.resolve_dotted(dotted)
+        if r is None or not isinstance(r[1], ast.FunctionDef):
+            raise AnalysisError(f"anchor vanished: {dotted}")
+        return r
+
     def resolve_dotted(self, dotted: str):
         """Resolve 'mdpax.x.y.Name' to (Module, top-level node) if it lives in the repo.
 
